@@ -97,6 +97,16 @@ func newWorld(r *rng.R) *world {
 	delete(w.byRoot, w.secRoots[1])
 	w.secRoots[1] = proto4.SectorRoot(w.secs[1])
 	w.byRoot[w.secRoots[1]] = w.secs[1]
+	// secs[2]: 1024 bytes of data, the rest zeros (what a short RPCWriteSector stores);
+	// secs[3]: all zeros. A stream that ends early must not pass for their zero tails.
+	z := new(sector)
+	copy(z[:1024], w.secs[0][5000:])
+	for _, s := range []*sector{z, new(sector)} {
+		w.secs = append(w.secs, s)
+		root := proto4.SectorRoot(s)
+		w.secRoots = append(w.secRoots, root)
+		w.byRoot[root] = s
+	}
 
 	l, err := net.Listen("tcp", "127.0.0.1:0")
 	if err != nil {
